@@ -123,6 +123,24 @@ def generatePlan (root out : Str) (mods : List ModIn) (plugs : List (Option File
   | .error e => .error e
   | .ok fs => .ok (fs.map fun x => (join2 out x.1, x.2))
 
+/-- `filepath.Abs` relative to the working directory `cwd`. -/
+def absPath (cwd p : Str) : Str := if isAbs p then clean p else join2 cwd p
+
+/-- main.go `do` after compilation: resolve the output directory and the Thrift root (given
+with `--thrift-root` and then verified, or the common ancestor of all modules), then
+`gen.Generate`. An ancestry failure happens before any plugin is started. -/
+def cliPlan (cwd : Str) (thriftRoot : Option Str) (out : Str) (mods : List ModIn)
+    (plugs : List (Option Files)) (ord : List Nat) : Except PlanErr Files :=
+  let paths := mods.map (·.thriftPath)
+  match thriftRoot with
+  | none =>
+    match findCommonAncestor paths with
+    | none => .error .moduleFailed
+    | some root => generatePlan root (absPath cwd out) mods plugs ord
+  | some r =>
+    if verifyAncestry (absPath cwd r) paths then generatePlan (absPath cwd r) (absPath cwd out) mods plugs ord
+    else .error .moduleFailed
+
 /-- the writes of a run: none at all unless the whole plan succeeded. -/
 def writesOf (r : Except PlanErr Files) : Files :=
   match r with
